@@ -16,6 +16,8 @@ use std::task::{Context, Poll, Wake, Waker};
 
 pub const SECTOR: usize = 512;
 pub const MAX_FILE_SIZE: u64 = 4 << 30;
+/// content of the part of a read buffer that a short or failed read did not fill
+pub const STALE_BYTE: u8 = 0xa7;
 
 // ---------------------------------------------------------------------------
 // PageFile: persistent (cheaply clonable) sparse byte file
@@ -1065,9 +1067,18 @@ impl Qcow2IoOps for SimIo {
         {
             OutcomeOut::Read(Ok(v)) => {
                 buf[..v.len()].copy_from_slice(&v);
+                // A short read leaves the rest of the buffer as it was, and
+                // the library's buffers start out uninitialised: what is in
+                // there is whatever the heap held.  Make that a fixed stale
+                // pattern, so that code which goes on to use the tail behaves
+                // the same in every process (and visibly wrong).
+                buf[v.len()..].fill(STALE_BYTE);
                 Ok(v.len())
             }
-            OutcomeOut::Read(Err(e)) => Err(e.into()),
+            OutcomeOut::Read(Err(e)) => {
+                buf.fill(STALE_BYTE);
+                Err(e.into())
+            }
             _ => unreachable!(),
         }
     }
